@@ -38,7 +38,7 @@ TEXT = {
             "codecs concrete; reference decoders decide 'undecodable'"),
     "C14": ("SMT regular-language lemmas (any length) on the compiled URL patterns + solver-enumerated URL skeleton holes "
             "through the real parse_url against an independent RFC 3986 reading",
-            "running-time clause not decided; IDNA tables outside"),
+            "running time: only ambiguous iteration of unbounded repeats (catastrophic backtracking) is decided; IDNA tables outside"),
     "C15": ("URL skeletons through PoolManager onto the in-memory wire: dial address, Host, SNI, target; two spellings of one origin raced by two real threads under every schedule",
             "TLS cut at wrap function"),
     "C16": ("inductive step on HTTPHeaderDict: one operation from symbolic states with unbounded symbolic values against a "
